@@ -1,0 +1,19 @@
+//go:build verif
+
+package device
+
+// Hook for the C03 handshake check (build tag verif only).  Add-only.
+
+// VerifC03Initiate calls SendHandshakeInitiation(false) on the peer with the
+// given public key, as the TUN path does when no usable keypair exists.  It
+// reports whether the peer exists.
+func (device *Device) VerifC03Initiate(pk NoisePublicKey) bool {
+	device.peers.RLock()
+	peer := device.peers.keyMap[pk]
+	device.peers.RUnlock()
+	if peer == nil {
+		return false
+	}
+	peer.SendHandshakeInitiation(false)
+	return true
+}
